@@ -207,8 +207,10 @@ func (r *yieldRewriter) rewriteStmts(
 	}
 
 	if isLast {
-		if children.kind == kindDelay {
-			r.generateLastNormalIfNecessary(children)
+		// a for / switch whose init yields continues in the thunk of that yield:
+		// close the block the statement actually ended up in
+		if following.kind == kindDelay {
+			r.generateLastNormalIfNecessary(following)
 		}
 	} else {
 		following = r.combineIfNecessary(following)
